@@ -16,6 +16,7 @@ use util::*;
 fn main() {
     if std::env::var("HARNESS_VERBOSE").is_err() { std::panic::set_hook(Box::new(|_| {})); }
     let args: Vec<String> = std::env::args().collect();
+    start_watchdog();
     match args[1].as_str() {
         "gen" => {
             let prop: u32 = args[2].trim_start_matches('C').parse().unwrap();
